@@ -1,9 +1,76 @@
 (* C04 — SSZ encoding of every type round-trips and agrees with its declared lengths.
-   Statements only; proofs live in Ssz/SszProofs.v. *)
-From Coq Require Import NArith List.
-From V Require Import Ssz.SszCore.
+   Statements only; proofs live in Ssz/SszProofs.v.  All theorems quantify over ALL types and ALL values of the
+   generic SSZ model (Ssz/SszCore.v); the per-type tie of zrnt's ~155 types to their schemas is the reflection
+   obligation GenSszCheck.all_types_ok over the descriptions regenerated from the Go source on every run. *)
+From Coq Require Import String NArith List.
+From V Require Import Ssz.SszCore Ssz.SszProofs.
+Import ListNotations.
 Local Open Scope N_scope.
 
-(* full statements (proved parts are the theorems below) *)
-Definition C04_roundtrip_full : Prop :=
-  forall t v, has_type t v = true -> deserialize t (serialize t v) = Some v.
+(* serialize then deserialize is the identity, for every well-formed type and every value within its limits
+   (the 2^32 bound is SSZ's own: offsets are 4 bytes) *)
+Theorem C04_roundtrip : forall t, wf_ty t = true -> forall v,
+  has_type t v = true -> len_N (serialize t v) < 2 ^ 32 ->
+  deserialize t (serialize t v) = Some v.
+Proof. exact deser_ser. Qed.
+Print Assumptions C04_roundtrip.
+
+(* the declared fixed length is the number of bytes written *)
+Theorem C04_fixed_length : forall t v n, fixed_size t = Some n -> has_type t v = true -> len_N (serialize t v) = n.
+Proof. exact ser_length. Qed.
+Print Assumptions C04_fixed_length.
+
+(* a fixed-size type accepts inputs of exactly its size: truncated input and trailing bytes are refused *)
+Theorem C04_fixed_size_exact : forall t n bs v, fixed_size t = Some n -> deserialize t bs = Some v -> len_N bs = n.
+Proof. exact deser_fixed_exact_length. Qed.
+Print Assumptions C04_fixed_size_exact.
+Theorem C04_truncated_refused : forall t n bs, fixed_size t = Some n -> len_N bs < n -> deserialize t bs = None.
+Proof. exact deser_rejects_truncated_fixed. Qed.
+Print Assumptions C04_truncated_refused.
+Theorem C04_trailing_refused : forall t n bs, fixed_size t = Some n -> n < len_N bs -> deserialize t bs = None.
+Proof. exact deser_rejects_trailing_fixed. Qed.
+Print Assumptions C04_trailing_refused.
+
+(* limits of bitlists and byte lists are enforced; a bitlist without its delimiter bit is refused *)
+Theorem C04_bitlist_limit : forall l bs b, deserialize (TBitlist l) bs = Some (VBits b) -> len_N b <= l.
+Proof. exact deser_bitlist_limit. Qed.
+Print Assumptions C04_bitlist_limit.
+Theorem C04_bytelist_limit : forall l bs b, deserialize (TByteList l) bs = Some (VBytes b) -> len_N b <= l.
+Proof. exact deser_bytelist_limit. Qed.
+Print Assumptions C04_bytelist_limit.
+Theorem C04_bitlist_delimiter : forall l bs, (bs = [] \/ exists p, bs = p ++ [0]) -> deserialize (TBitlist l) bs = None.
+Proof. exact deser_bitlist_needs_delimiter. Qed.
+Print Assumptions C04_bitlist_delimiter.
+
+(* inconsistent offsets are refused: an accepted container has its first offset exactly at the end of the fixed
+   part and every offset between the first offset and the end of the input (nondecreasing: offsets_ok) *)
+Theorem C04_container_offsets : forall fs bs v,
+  deserialize (TContainer fs) bs = Some v ->
+  slots_len fs <= len_N bs /\
+  match item_offs (scan_fields bs fs 0) with
+  | [] => len_N bs = slots_len fs
+  | o0 :: rest => o0 = slots_len fs /\ forall o, In o (o0 :: rest) -> o0 <= o /\ o <= len_N bs
+  end.
+Proof. exact deser_container_offsets. Qed.
+Print Assumptions C04_container_offsets.
+
+(* Full statements not (yet) proved in general; both directions are exercised on every run by the
+   correspondence check, where the model's deserialize decides every input. *)
+(* accepted bytes are canonical: they re-serialize to themselves, and the decoded value is within the limits *)
+Definition C04_accepted_is_canonical_full : Prop :=
+  forall t bs v, wf_ty t = true -> deserialize t bs = Some v -> has_type t v = true /\ serialize t v = bs.
+(* proved instance of it: on the image of serialize *)
+Theorem C04_accepted_is_canonical_partial : forall t, wf_ty t = true -> forall v,
+  has_type t v = true -> len_N (serialize t v) < 2 ^ 32 ->
+  exists v', deserialize t (serialize t v) = Some v' /\ serialize t v' = serialize t v.
+Proof. exact ser_deser_canonical. Qed.
+Print Assumptions C04_accepted_is_canonical_partial.
+(* JSON / YAML text forms: no model of the text codecs; round trip is observed on the Go side of the correspondence run *)
+
+(* non-vacuity: a variable-size container with a list of variable-size elements *)
+Example C04_nonvacuous :
+  let t := TContainer [("a", TUint 8); ("b", TList (TByteList 5) 3); ("c", TBitlist 9)]%string in
+  let v := VCont [VUint 7; VSeq [VBytes [1; 2]; VBytes []]; VBits [true; false; true]] in
+  wf_ty t = true /\ has_type t v = true /\ len_N (serialize t v) < 2 ^ 32 /\
+  deserialize t (serialize t v) = Some v /\ deserialize t (removelast (serialize t v)) <> Some v.
+Proof. vm_compute. repeat split; try reflexivity; discriminate. Qed.
